@@ -51,3 +51,11 @@ Definition check_dominates (W : mat) (r1 r2 : box) : bool :=
 (* specification: every point of r1 dominates some point of r2 *)
 Definition pess_dominates (W : mat) (r1 r2 : box) : Prop :=
   forall z, inbox r1 z -> exists z', inbox r2 z' /\ dominates W z z' = true.
+
+(* exact decision of the specification at the vertices of r1 (which suffices, the set of points with
+   a witness being convex): for every vertex v of r1, exists z' in r2 with w.(v - z') >= tau for all
+   facets, by Fourier–Motzkin.  tau = 0 is the specification itself; tau > 0 a margin. *)
+From VOPy Require Import FM RectCover.
+Definition pess_dec (W : mat) (r1 r2 : box) (tau : Q) : bool :=
+  let m := length r2 in
+  forallb (fun v => fm_sat m (box_rows m 0 r2 ++ map (fun w => (vopp w, tau - dot w v)) W)) (vertices r1).
